@@ -27,6 +27,7 @@ use crate::budget::EnforcingPolicy;
 use crate::de::{Ev, Events};
 use crate::live_events::LiveEvents;
 use crate::parse_scalars::scalar_is_nullish;
+use crate::tags::SfTag;
 pub use crate::serializer_options::SerializerOptions;
 use serde::de::DeserializeOwned;
 use std::io::Read;
@@ -590,8 +591,11 @@ where
         match src.peek()? {
             // Skip documents that are explicit null-like scalars ("", "~", or "null").
             Some(Ev::Scalar {
-                value: s, style, ..
-            }) if scalar_is_nullish(s, style) => {
+                value: s,
+                style,
+                tag,
+                ..
+            }) if tag != &SfTag::String && scalar_is_nullish(s, style) => {
                 let _ = src.next()?; // consume the null scalar document
                 continue;
             }
@@ -828,8 +832,9 @@ where
             }
             loop {
                 match self.src.peek() {
-                    Ok(Some(Ev::Scalar { value, style, .. }))
-                        if scalar_is_nullish(value, style) =>
+                    Ok(Some(Ev::Scalar {
+                        value, style, tag, ..
+                    })) if tag != &SfTag::String && scalar_is_nullish(value, style) =>
                     {
                         // Consume the null document; an error at this point (an I/O fault, the
                         // input size cap) ends the iteration and must be reported.
@@ -988,8 +993,11 @@ where
         match src.peek()? {
             // Skip documents that are explicit null-like scalars ("", "~", or "null").
             Some(Ev::Scalar {
-                value: s, style, ..
-            }) if scalar_is_nullish(s, style) => {
+                value: s,
+                style,
+                tag,
+                ..
+            }) if tag != &SfTag::String && scalar_is_nullish(s, style) => {
                 let _ = src.next()?; // consume the null scalar document
                 continue;
             }
@@ -1216,8 +1224,9 @@ where
             }
             loop {
                 match self.src.peek() {
-                    Ok(Some(Ev::Scalar { value, style, .. }))
-                        if scalar_is_nullish(value, style) =>
+                    Ok(Some(Ev::Scalar {
+                        value, style, tag, ..
+                    })) if tag != &SfTag::String && scalar_is_nullish(value, style) =>
                     {
                         // Consume the null document; an error at this point (an I/O fault, the
                         // input size cap) ends the iteration and must be reported.
@@ -1410,8 +1419,11 @@ pub fn from_multiple_with_options<T: DeserializeOwned>(
         match src.peek()? {
             // Skip documents that are explicit null-like scalars ("", "~", or "null").
             Some(Ev::Scalar {
-                value: s, style, ..
-            }) if scalar_is_nullish(s, style) => {
+                value: s,
+                style,
+                tag,
+                ..
+            }) if tag != &SfTag::String && scalar_is_nullish(s, style) => {
                 let _ = src.next()?; // consume the null scalar document
                 // Do not push anything for this document; move to the next one.
                 continue;
@@ -1958,8 +1970,9 @@ where
             }
             loop {
                 match self.src.peek() {
-                    Ok(Some(Ev::Scalar { value, style, .. }))
-                        if scalar_is_nullish(value, style) =>
+                    Ok(Some(Ev::Scalar {
+                        value, style, tag, ..
+                    })) if tag != &SfTag::String && scalar_is_nullish(value, style) =>
                     {
                         // Consume the null document; an error at this point (an I/O fault, the
                         // input size cap) ends the iteration and must be reported.
